@@ -36,6 +36,7 @@ type HarnessSpec struct {
 	Instances       []map[string]int          `json:"instances,omitempty"`          // extra bound sets, each run separately (quick and thorough)
 	InstancesThorough []map[string]int        `json:"instances_thorough,omitempty"` // thorough-only instances
 	NoReplayKinds   []string                  `json:"no_replay_kinds,omitempty"`
+	ReplayRepeat    int                       `json:"replay_repeat,omitempty"` // native replays per counterexample (order-dependent behaviour shows up only in some runs)
 	TimeoutMs       int                       `json:"solver_timeout_ms,omitempty"`
 	Claim           string                    `json:"claim,omitempty"`
 }
@@ -291,6 +292,9 @@ func cmdCheck(args []string) {
 				break
 			}
 			out, ok := rp.replay(v, path)
+			for rep := 1; !ok && rep < replayRepeat(spec, v); rep++ {
+				out, ok = rp.replay(v, path)
+			}
 			if ok {
 				newViolations = append(newViolations, confirmed{v: v, replay: path, output: out})
 				done = true
@@ -411,6 +415,15 @@ func renderModel(m map[string]uint64) string {
 	r := sym.RenderModel(sym.ModelOrder(m), m)
 	b, _ := json.Marshal(r)
 	return string(b)
+}
+
+func replayRepeat(spec CheckSpec, v sym.Violation) int {
+	for _, h := range spec.Harnesses {
+		if h.Fn == v.Harness && h.ReplayRepeat > 0 {
+			return h.ReplayRepeat
+		}
+	}
+	return 1
 }
 
 func noReplayKind(spec CheckSpec, v sym.Violation) bool {
